@@ -20,19 +20,242 @@ def jobs_R():
     J = []
     for f in ('addition', 'subtraction', 'multiplication', 'division', 'additionAssign', 'subtractionAssign', 'multiplicationAssign', 'divisionAssign'):
         J.append(R(f, 'opensmt::' + f, proves='UB-freedom, typestate of the GMP path, frame, operands unchanged, canonical word representation, exact value on the integer-denominator paths'))
-    for f, c in (('operator-()', 'FastRational__op_minus__void'), ('inverse', 'FastRational__inverse'), ('ceil', 'FastRational__ceil'), ('floor', 'FastRational__floor'),
+    for f, c in (('operator_neg', 'FastRational__op_minus__void'), ('inverse', 'FastRational__inverse'), ('ceil', 'FastRational__ceil'), ('floor', 'FastRational__floor'),
                  ('get_num', 'FastRational__get_num'), ('get_den', 'FastRational__get_den'), ('negate', 'FastRational__negate'), ('sign', 'FastRational__sign'),
                  ('isInteger', 'FastRational__isInteger'), ('isZero', 'FastRational__isZero'), ('isOne', 'FastRational__isOne'),
-                 ('compare', 'FastRational__compare__FastRational_R'), ('operator==', 'FastRational__op_eq'),
-                 ('FastRational(word,uword)', 'FastRational__ctor__word_uword'), ('FastRational(uint32_t)', 'FastRational__ctor__uint32_t'),
-                 ('FastRational(const&)', 'FastRational__ctor__FastRational_R'), ('operator=(const&)', 'FastRational__op_assign__FastRational_R'),
-                 ('absVal(word)', 'absVal__word'), ('absVal(lword)', 'absVal__lword'), ('compare(lword,lword)', 'FastRational__compare__lword_lword')):
+                 ('compare', 'FastRational__compare__FastRational_R'), ('operator_eq', 'FastRational__op_eq'),
+                 ('ctor_word_uword', 'FastRational__ctor__word_uword'), ('ctor_uint32', 'FastRational__ctor__uint32_t'),
+                 ('ctor_copy', 'FastRational__ctor__FastRational_R'), ('assign_copy', 'FastRational__op_assign__FastRational_R'),
+                 ('operator_plus', 'FastRational__op_plus'), ('operator_minus', 'FastRational__op_minus__FastRational_R'), ('operator_mul', 'FastRational__op_mul'), ('operator_div', 'FastRational__op_div'),
+                 ('fastrat_fdiv_q', 'fastrat_fdiv_q'), ('divexact', 'divexact'),
+                 ('gcd', 'gcd__FastRational_R_FastRational_R'), ('lcm', 'lcm__FastRational_R_FastRational_R'), ('abs', 'abs'),
+                 ('ctor_mpz', 'FastRational__ctor____mpz_struct_P'), ('ctor_move', 'FastRational__ctor__FastRational_RR'), ('assign_move', 'FastRational__op_assign__FastRational_RR'),
+                 ('try_fit_word', 'FastRational__try_fit_word'), ('ensure_mpq_valid', 'FastRational__ensure_mpq_valid'), ('kill_mpq', 'FastRational__kill_mpq'),
+                 ('absVal_word', 'absVal__word'), ('absVal_lword', 'absVal__lword'), ('compare_lword', 'FastRational__compare__lword_lword')):
         J.append(R(f, c))
     return J
 
+
+# ------------------------------------------------------------------------------------------------- S tier
+S_UNWIND = lambda W: ('sp_gcd.0:%d' % (4 * W + 12), 'gcd__uint_uint.0:%d' % (2 * W + 4), 'gcd__ulong_ulong.0:%d' % (4 * W + 4), 'gcd__int_int.0:%d' % (2 * W + 4))
+BIN = {'addition': ('an*bd + bn*ad', 'ad*bd', ''), 'subtraction': ('an*bd - bn*ad', 'ad*bd', ''),
+       'multiplication': ('an*bn', 'ad*bd', ''), 'division': ('an*bd', 'ad*bn', '__CPROVER_assume(bn != 0);')}
+def h_bin(fn, alias):
+    n, d, pre = BIN[fn]
+    if alias: n = n.replace('bn', 'an').replace('bd', 'ad'); d = d.replace('bn', 'an').replace('bd', 'ad'); pre = pre.replace('bn', 'an')
+    b = 'a' if alias else 'b'
+    pre += ' __CPROVER_assume(FR_WORD(&a)%s);' % ('' if alias else ' && FR_WORD(&b)')
+    return '''void harness(void) { S_OPERAND(a) %s S_OPERAND(dst) %s
+  %s(&dst, &a, &%s);
+  /* the GMP fall-back is decided at real width by provenance (fr_R.h); here: every result the word path produces */
+  __CPROVER_assume(!g_gmp_arith);
+  s_check(&dst, "dst"); s_check(&a, "a"); %s
+  S_SAME(&a, an, ad); %s
+  S_EXACT(&dst, %s, %s);
+  OSMT_REACH("return");
+}\n''' % ('' if alias else 'S_OPERAND(b)', pre, fn, b, '' if alias else 's_check(&b, "b");', '' if alias else 'S_SAME(&b, bn, bd);', n, d)
+def h_assign(fn, alias):
+    n, d, pre = BIN[fn.replace('Assign', '')]
+    if alias: n = n.replace('bn', 'an').replace('bd', 'ad'); d = d.replace('bn', 'an').replace('bd', 'ad'); pre = pre.replace('bn', 'an')
+    pre += ' __CPROVER_assume(FR_WORD(&a)%s);' % ('' if alias else ' && FR_WORD(&b)')
+    return '''void harness(void) { S_OPERAND(a) %s %s
+  %s(&a, &%s);
+  __CPROVER_assume(!g_gmp_arith);
+  s_check(&a, "a"); %s
+  S_EXACT(&a, %s, %s);
+  OSMT_REACH("return");
+}\n''' % ('' if alias else 'S_OPERAND(b)', pre, fn, 'a' if alias else 'b', '' if alias else 's_check(&b, "b"); S_SAME(&b, bn, bd);', n, d)
+UNARY = {
+ 'FastRational__op_minus__void': ('struct FastRational r = F(&a);', 's_check(&r, "r"); S_EXACT(&r, -an, ad);', ''),
+ 'FastRational__inverse': ('struct FastRational r = F(&a);', 's_check(&r, "r"); S_EXACT(&r, ad, an);', '__CPROVER_assume(an != 0);'),
+ 'FastRational__ceil': ('struct FastRational r = F(&a);', 's_check(&r, "r"); __CPROVER_assert(VD(&r) == 1, "value: ceil is an integer"); __CPROVER_assert((VN(&r) - 1) * ad < an && an <= VN(&r) * ad, "value: ceil-1 < x <= ceil");', ''),
+ 'FastRational__floor': ('struct FastRational r = F(&a);', 's_check(&r, "r"); __CPROVER_assert(VD(&r) == 1, "value: floor is an integer"); __CPROVER_assert(VN(&r) * ad <= an && an < (VN(&r) + 1) * ad, "value: floor <= x < floor+1");', ''),
+ 'FastRational__get_num': ('struct FastRational r = F(&a);', 's_check(&r, "r"); S_EXACT(&r, an, (wide)1);', ''),
+ 'FastRational__get_den': ('struct FastRational r = F(&a);', 's_check(&r, "r"); S_EXACT(&r, ad, (wide)1);', ''),
+ 'abs': ('struct FastRational r = F(&a);', 's_check(&r, "r"); S_EXACT(&r, sp_abs(an), ad);', ''),
+ 'FastRational__negate': ('F(&a);', '__CPROVER_assert(VN(&a) == -an && VD(&a) == ad, "value: negate");', None),
+ 'FastRational__sign': ('t_int r = F(&a);', '__CPROVER_assert(r == (an > 0) - (an < 0), "value: sign");', ''),
+ 'FastRational__isInteger': ('t_bool r = F(&a);', '__CPROVER_assert(r == (ad == 1), "value: isInteger");', ''),
+ 'FastRational__isZero': ('t_bool r = F(&a);', '__CPROVER_assert(r == (an == 0), "value: isZero");', ''),
+ 'FastRational__isOne': ('t_bool r = F(&a);', '__CPROVER_assert(r == (an == 1 && ad == 1), "value: isOne");', ''),
+}
+def h_unary(c):
+    call, post, pre = UNARY[c]
+    same = 'S_SAME(&a, an, ad);' if pre is not None else ''
+    return '''void harness(void) { S_OPERAND(a) %s
+  %s
+  s_check(&a, "a"); %s
+  %s
+  OSMT_REACH("return");
+}\n''' % (pre or '', call.replace('F(', c + '('), same, post)
+CMP = {'FastRational__compare__FastRational_R': '__CPROVER_assert(((r > 0) - (r < 0)) == ((an*bd > bn*ad) - (an*bd < bn*ad)), "value: compare is the sign of a-b");',
+       'FastRational__op_eq': '__CPROVER_assert((r != 0) == (an == bn && ad == bd), "value: equality");',
+       'FastRational__op_lt': '__CPROVER_assert((r != 0) == (an*bd < bn*ad), "value: <");',
+       'FastRational__op_le': '__CPROVER_assert((r != 0) == (an*bd <= bn*ad), "value: <=");',
+       'FastRational__op_gt': '__CPROVER_assert((r != 0) == (an*bd > bn*ad), "value: >");',
+       'FastRational__op_ge': '__CPROVER_assert((r != 0) == (an*bd >= bn*ad), "value: >=");',
+       'FastRational__op_ne': '__CPROVER_assert((r != 0) == !(an == bn && ad == bd), "value: !=");'}
+def h_cmp(c, alias):
+    post = CMP[c]
+    if alias: post = post.replace('bn', 'an').replace('bd', 'ad')
+    ww = '' if c in ('FastRational__compare__FastRational_R', 'FastRational__op_eq', 'FastRational__op_ne') else ' __CPROVER_assume(FR_WORD(&a) && FR_WORD(&%s)); /* one-line wrappers of compare(): big operands are exercised through compare itself */' % ('a' if alias else 'b')
+    return '''void harness(void) { S_OPERAND(a) %s %s
+  t_int r = %s(&a, &%s);
+  s_check(&a, "a"); S_SAME(&a, an, ad); %s
+  %s
+  OSMT_REACH("return");
+}\n''' % ('' if alias else 'S_OPERAND(b)', ww, c, 'a' if alias else 'b', '' if alias else 's_check(&b, "b"); S_SAME(&b, bn, bd);', post)
+
+def S(name, root, W, harness, nofr=False, **kw):
+    kw.setdefault('stubs', POOL_STUBS); kw.setdefault('expected_wrap', (('absVal__word', 'type conversion'), ('absVal__lword', 'type conversion'), ('absVal__word', 'unary minus'), ('absVal__lword', 'unary minus'), ('additionAssign', '(t_lword)return_value_gcd__ulong_ulong'),
+        # operator%: `(word)(d.num > 0 ? w : -w)` negates an unsigned value and converts it back: intended modular arithmetic
+        ('FastRational__op_mod', 'type conversion in (t_uword)-'), ('FastRational__op_mod', 'type conversion in (t_word)'), ('FastRational__op_mod', 'unary minus')))
+    kw.setdefault('timeout', 1500 if W >= 5 else 600)
+    return Job('%s.S%d' % (name, W), TU, root, tier='S', width=W, header='contracts/C15/fr_S.h', harness=harness, enforce=False,
+               defines=('OSMT_GMP_EXACT', 'OSMT_CHECK_WF_ASSERTS') + (('OSMT_NO_FR',) if nofr else ()), unwindset=S_UNWIND(W), min_obligations=5,
+               bounded_note='exhaustive over all well-formed operands at word width %d (big operands up to 2^%d)' % (W, W + 2), **kw)
+
+def jobs_S(W, full=True):
+    J = []
+    for f in ('addition', 'subtraction', 'multiplication', 'division'):
+        J.append(S(f, 'opensmt::' + f, W, h_bin(f, False), proves='exact value, canonical result, unique representation, operands unchanged -- word, big and mixed operands'))
+        J.append(S(f + '.alias', 'opensmt::' + f, W, h_bin(f, True)))
+    for f in ('additionAssign', 'subtractionAssign', 'multiplicationAssign', 'divisionAssign'):
+        J.append(S(f, 'opensmt::' + f, W, h_assign(f, False)))
+        J.append(S(f + '.alias', 'opensmt::' + f, W, h_assign(f, True)))
+    for c in UNARY:
+        J.append(S(c.replace('FastRational__', ''), c, W, h_unary(c)))
+    for c in CMP:
+        J.append(S(c.replace('FastRational__', ''), c, W, h_cmp(c, False)))
+    J.append(S('compare.alias', 'FastRational__compare__FastRational_R', W, h_cmp('FastRational__compare__FastRational_R', True)))
+    for nm, c, key in (('operator_plus', 'FastRational__op_plus', 'addition'), ('operator_minus', 'FastRational__op_minus__FastRational_R', 'subtraction'),
+                       ('operator_mul', 'FastRational__op_mul', 'multiplication'), ('operator_div', 'FastRational__op_div', 'division')):
+        n, d, pre = BIN[key]
+        J.append(S(nm, c, W, '''void harness(void) { S_OPERAND(a) S_OPERAND(b) %s __CPROVER_assume(FR_WORD(&a) && FR_WORD(&b));
+  struct FastRational r = %s(&a, &b);
+  __CPROVER_assume(!g_gmp_arith);
+  s_check(&r, "r"); s_check(&a, "a"); s_check(&b, "b"); S_SAME(&a, an, ad); S_SAME(&b, bn, bd);
+  S_EXACT(&r, %s, %s);
+  OSMT_REACH("return");
+}\n''' % (pre, c, n, d)))
+    INTOPS = {
+      'operator_mod': ('FastRational__op_mod', '__CPROVER_assume(bn != 0 && FR_WORD(&a) && FR_WORD(&b));',
+         '__CPROVER_assert(VD(&r) == 1, "value: remainder is an integer"); __CPROVER_assert((an - VN(&r)) % bn == 0, "value: a - (a % d) is a multiple of d"); __CPROVER_assert(bn > 0 ? (VN(&r) >= 0 && VN(&r) < bn) : (VN(&r) <= 0 && VN(&r) > bn), "value: remainder lies between 0 and d (floor remainder, sign of d)");'),
+      'fastrat_fdiv_q': ('fastrat_fdiv_q', '__CPROVER_assume(bn != 0);',
+         '__CPROVER_assert(VD(&r) == 1, "value: quotient is an integer"); __CPROVER_assert(bn > 0 ? (VN(&r) * bn <= an && an < VN(&r) * bn + bn) : (VN(&r) * bn >= an && an > VN(&r) * bn + bn), "value: floor(n/d) <= n/d < floor(n/d)+1");'),
+      'divexact': ('divexact', '__CPROVER_assume(bn != 0 && an % bn == 0);',
+         '__CPROVER_assert(VD(&r) == 1 && VN(&r) * bn == an, "value: exact quotient");'),
+      'gcd': ('gcd__FastRational_R_FastRational_R', '',
+         '__CPROVER_assert(VD(&r) == 1 && VN(&r) == sp_gcd(sp_abs(an), sp_abs(bn)), "value: gcd is the non-negative greatest common divisor");'),
+      'lcm': ('lcm__FastRational_R_FastRational_R', '',
+         '__CPROVER_assert(VD(&r) == 1 && VN(&r) >= 0 && VN(&r) * sp_gcd(sp_abs(an), sp_abs(bn)) == sp_abs(an) * sp_abs(bn), "value: lcm * gcd == |a*b|, lcm >= 0");'),
+    }
+    for nm, (c, pre, post) in INTOPS.items():
+        J.append(S(nm, c, W, '''void harness(void) { S_OPERAND(a) S_OPERAND(b) __CPROVER_assume(ad == 1 && bd == 1); %s
+  struct FastRational r = %s(&a, &b);
+  s_check(&r, "r"); s_check(&a, "a"); s_check(&b, "b"); S_SAME(&a, an, ad); S_SAME(&b, bn, bd);
+  %s
+  OSMT_REACH("return");
+}\n''' % (pre, c, post)))
+    J.append(S('cmpabs', 'opensmt::cmpabs', W, '''void harness(void) { S_OPERAND(a) S_OPERAND(b) __CPROVER_assume(FR_WORD(&a) && FR_WORD(&b));
+  t_int r = cmpabs(a, b);
+  wide l = sp_abs(an) * bd, rr = sp_abs(bn) * ad;
+  __CPROVER_assert(((r > 0) - (r < 0)) == ((l > rr) - (l < rr)), "value: cmpabs is the sign of |a|-|b|");
+  OSMT_REACH("return");
+}\n'''))
+    J.append(S('fastrat_round_to_int', 'opensmt::fastrat_round_to_int', W, '''void harness(void) { S_OPERAND(a) __CPROVER_assume(FR_WORD(&a));
+  struct FastRational r = fastrat_round_to_int(&a);
+  __CPROVER_assume(!g_gmp_arith);
+  s_check(&r, "r"); S_SAME(&a, an, ad);
+  __CPROVER_assert(VD(&r) == 1 && 2 * VN(&r) * ad <= 2 * an + ad && 2 * an + ad < 2 * (VN(&r) + 1) * ad, "value: round_to_int(x) == floor(x + 1/2)");
+  OSMT_REACH("return");
+}\n'''))
+    J.append(S('ctor_word_uword', 'FastRational__ctor__word_uword', W, '''void harness(void) { struct FastRational x; t_word n = nondet_word(); t_uword d = nondet_uword(); __CPROVER_assume(d > 0);
+  FastRational__ctor__word_uword(&x, n, d);
+  s_check(&x, "x"); __CPROVER_assert(VN(&x) * (wide)(uwide)d == (wide)n * VD(&x), "value: FastRational(n,d) == n/d");
+  OSMT_REACH("return");
+}\n'''))
+    J.append(S('gcd_uword', 'gcd__uint_uint', W, '''void harness(void) { t_uword a = nondet_uword(), b = nondet_uword();
+  t_uword g = gcd__uint_uint(a, b);
+  __CPROVER_assert((wide)(uwide)g == sp_gcd((wide)(uwide)a, (wide)(uwide)b), "value: gcd<uword> is the greatest common divisor (the contract assumed at real width)");
+  OSMT_REACH("return");
+}\n''', nofr=True))
+    J.append(S('gcd_ulword', 'gcd__ulong_ulong', W, '''void harness(void) { t_ulword nondet_ulword(void); t_ulword a = nondet_ulword(), b = nondet_ulword();
+  t_ulword g = gcd__ulong_ulong(a, b);
+  __CPROVER_assert((wide)(uwide)g == sp_gcd((wide)(uwide)a, (wide)(uwide)b), "value: gcd<ulword> is the greatest common divisor (the contract assumed at real width)");
+  OSMT_REACH("return");
+}\n''', nofr=True))
+    return J
+
 def jobs(tier):
-    return jobs_R()
+    if tier == 'quick':
+        return jobs_R() + jobs_S(4)
+    return jobs_R() + jobs_S(4) + jobs_S(5)
 
 def info(tier, results):
     return {'level': 'proof', 'trusted_base': ['clang 14 AST', 'osmt2c lowering', 'CBMC 6.11 (goto-cc, goto-instrument --dfcc, MiniSat)'],
             'assumptions': ['GMP functions behave as the stub contracts in stubs/gmp_R.h say'], 'explanation': ''}
+
+
+# ------------------------------------------------------------------------------------------------- replay
+import subprocess, tempfile, shutil, itertools
+import vrun
+OPMAP = {'op_minus__void': 'negate', 'operator_neg': 'negate', 'FastRational__op_minus__void': 'negate', 'compare__FastRational_R': 'compare', 'op_eq': 'compare', 'operator_eq': 'compare', 'operator_plus': 'addition', 'operator_minus': 'subtraction', 'operator_mul': 'multiplication', 'operator_div': 'division', 'operator_mod': 'mod',
+         'op_lt': 'compare', 'op_le': 'compare', 'op_gt': 'compare', 'op_ge': 'compare', 'op_ne': 'compare', 'sign': 'query', 'isInteger': 'query',
+         'isZero': 'query', 'isOne': 'query', 'operator%': 'mod', 'fastrat_fdiv_q': 'fdiv_q'}
+def _build_replay(repo):
+    d = tempfile.mkdtemp(prefix='osmt-replay.')
+    exe = os.path.join(d, 'fr_replay')
+    cmd = ['g++', '-std=c++20', '-O1', '-I%s/src/common/numbers' % repo, '-I%s/src' % repo, os.path.join(VERIF, 'replay/fr_replay.cc'),
+           '%s/src/common/numbers/FastRational.cc' % repo, '-lgmpxx', '-lgmp', '-o', exe]
+    r = subprocess.run(cmd, capture_output=True, text=True)
+    if r.returncode != 0:
+        shutil.rmtree(d, ignore_errors=True); raise RuntimeError('replay build failed: ' + r.stderr[-500:])
+    return d, exe
+
+def _cands(n, d, W):
+    """candidate real-width values for a counterexample value seen at width W (None = real width)"""
+    out = [(n, d)]
+    if W:
+        lo, hi, umax = -(1 << (W - 1)), (1 << (W - 1)) - 1, (1 << W) - 1
+        def m(v): return -2147483648 if v == lo else 2147483647 if v == hi else v
+        def mu(v): return 4294967295 if v == umax else 2147483647 if v == hi else v
+        out.append((m(n), mu(d)))
+        sc = 1 << (32 - W)
+        out.append((n * sc, d)); out.append((n, d * sc if d * sc <= 4294967295 else d)); out.append((m(n), d)); out.append((n, mu(d)))
+    seen = []; 
+    for c in out:
+        if c not in seen and c[1] > 0: seen.append(c)
+    return seen
+
+def replay(r, o):
+    name = r['job'].split('.')[0]
+    op = OPMAP.get(name, name)
+    tr = o.trace or []
+    W = r.get('width') if r['tier'] == 'S' else None
+    if r['tier'] == 'R':
+        v = vrun.trace_values(tr, prefix='rp_')
+        an, ad, bn, bd = vrun.toint(v.get('rp_a_num'), 0), vrun.toint(v.get('rp_a_den'), 1), vrun.toint(v.get('rp_b_num'), 1), vrun.toint(v.get('rp_b_den'), 1)
+        stA, stB = v.get('rp_a_state'), v.get('rp_b_state')
+    else:
+        v = vrun.trace_values(tr, names=('an', 'ad', 'bn', 'bd'))
+        def g(k, dflt): return vrun.toint(v.get(k), dflt)
+        an, ad, bn, bd = g('an', 0), g('ad', 1), g('bn', 1), g('bd', 1)
+        stA = stB = None
+    d, exe = _build_replay(vrun.REPO)
+    tried = []
+    try:
+        for (a1, a2), (b1, b2) in itertools.product(_cands(an, ad, W), _cands(bn, bd, W)):
+            if a2 <= 0 or b2 <= 0: continue
+            p = subprocess.run([exe, op, str(a1), str(a2), str(b1), str(b2)], capture_output=True, text=True, timeout=60)
+            tried.append({'args': [op, a1, a2, b1, b2], 'exit': p.returncode, 'out': p.stdout[-400:]})
+            if p.returncode == 1:
+                return {'reproduced': True, 'input': {'op': op, 'a': '%d/%d' % (a1, a2), 'b': '%d/%d' % (b1, b2)}, 'output': p.stdout[-800:],
+                        'how': 'g++ replay/fr_replay.cc + %s/src/common/numbers/FastRational.cc against GMP mpq_class oracle' % vrun.REPO, 'tried': len(tried)}
+        p = subprocess.run([exe, op, 'sweep'], capture_output=True, text=True, timeout=600)
+        if p.returncode == 1:
+            return {'reproduced': True, 'input': p.stdout.strip().split('\n')[-1], 'output': p.stdout[-800:], 'tried': len(tried),
+                    'how': 'the counterexample itself did not reproduce (abstract or non-canonical operand); a fixed corpus of boundary values run through the real function found this input (replay aid, not the deciding step)'}
+        return {'reproduced': False, 'reason': 'the real code agrees with the oracle on the inputs derived from the counterexample (operand states a=%s b=%s; big or non-canonical operands of the abstract model cannot be reconstructed)' % (stA, stB), 'tried': tried[:6]}
+    finally:
+        shutil.rmtree(d, ignore_errors=True)
